@@ -138,6 +138,13 @@ CHECKS = {
         note="Interleavings at line granularity under a serialising scheduler with cooperative locks (module-global RLock rebinding); aborts inside the copy-protection bookkeeping itself are recorded open known findings.",
         ref="DESIGN.md section 4, C20",
     ),
+    "C19": dict(
+        level="exploration",
+        technique="differential property testing with schedule enumeration: lazy vs eager builds of Hypothesis-generated class worlds; deterministic cooperative thread scheduler enumerating preemption schedules at library source lines",
+        text="Every Hypothesis-generated class world (Attr/field declarations, lazy parent and child, plain and spec subclasses, user-defined or inherited __new__) is built lazily and driven through every kind of first trigger (instantiate, __spec_class__, dataclasses.fields, through a subclass or the parent), sequentially and from 2-3 threads under a harness-owned scheduler (yield points at every line of spec_class.py, methods/base.py and types/attr.py; cooperative locks): every single-preemption schedule on three fixed shapes, two-preemption schedules over spec_class.py in thorough, and Hypothesis-drawn (world, triggers, schedule) cases; the canonical description (metadata, helper names, signatures, class-level defaults, every constructed instance) must equal the eager single-threaded build, with no exception and no deadlock.",
+        note="Line-granular interleavings under a serialising scheduler (module-global RLock rebinding, watchdog turns stalls into harness errors); beyond two preemptions the schedule space is sampled.",
+        ref="DESIGN.md section 4, C19",
+    ),
 }
 
 NOT_YET = "check not built yet in this revision (see DESIGN.md section 9 for the order); nothing is claimed"
